@@ -195,13 +195,24 @@ def cspec (reqs : List CReq) (dest : String → Option Dest) (prevRoutes prevOwn
         || (!q.cf && custom.any (fun c => field c 0 = q.h)))) with
   | some q => some s!"release of {q.h} returned success and left its registration, routes or custom-hostname binding behind"
   | none =>
-  -- a successful request that was the only successful one on its hostname behaves as if it ran alone
-  let lone (q : CReq) : Bool := code q = "ok" && !(reqs.any fun q' => q'.tid ≠ q.tid && q'.h = q.h && code q' = "ok")
+  -- a successful request that was the only effective one on its hostname behaves as if it ran alone
+  -- (another owner's request on the hostname that was not refused outright may have deleted or written some slots,
+  --  even when it finally reported a KV failure)
+  let lone (q : CReq) : Bool := code q = "ok" && !(reqs.any fun q' => q'.tid ≠ q.tid && q'.h = q.h && owner q' &&
+    code q' ≠ "permission_denied" && code q' ≠ "invalid_argument")
   match reqs.findSome? (fun q => if q.op = "pub" && lone q then pubSlots q.tok q.id q.h q.servers q.failing dest routes else none) with
   | some why => some why
   | none =>
   match reqs.find? (fun q => q.op = "unpub" && lone q && routes.any (fun r => field r 0 = q.h)) with
   | some _ => some "unpublish left routes behind"
+  | none =>
+  -- a successful publish overlapping only successful unpublish/release requests of the hostname: the calls are
+  -- atomic, so either the publish came last (its routes are all there) or the hostname has no routes
+  let refused (q : CReq) : Bool := !(owner q) || code q = "permission_denied" || code q = "invalid_argument"
+  match reqs.find? (fun q => q.op = "pub" && code q = "ok" && !(lone q) &&
+      (reqs.all fun q' => q'.tid = q.tid || q'.h ≠ q.h || refused q' || ((q'.op = "unpub" || q'.op = "rel") && code q' = "ok")) &&
+      routes.any (fun r => field r 0 = q.h) && (pubSlots q.tok q.id q.h q.servers q.failing dest routes).isSome) with
+  | some q => some s!"publish and unpublish/release of {q.h} both returned success and its routes are neither removed nor the published ones"
   | none => none
 
 def spawnReq (d : DSt) (q : CReq) (n : Nat) : DSt :=
